@@ -130,6 +130,12 @@ def o_load(inp):
                                                  target_meta_track_index=target)
         except ValueError as e:
             err = e
+        except IndexError as e:
+            if any(len(g) == 0 for g in groups):
+                # a group that names no track is not a "requested track group" of the property; what the real code does there is proved
+                # (C13b.empty_group_error: IndexError, exactly then).  No generator draws it: only shrinking arrives here (seed round 9).
+                return [("~skip:empty-group", "")]
+            return [("raises", f"{type(e).__name__}: {e}")]
         except Exception as e:
             return [("raises", f"{type(e).__name__}: {e}")]
     finally:
